@@ -1653,3 +1653,181 @@ pub fn gen_file(rng: &mut Rng, id: &str, ilt: bool, markers: &[String]) -> Optio
         _ => return None,
     })
 }
+
+// ------------------------------------------------------------------------------------------
+// w25: families derived from a generated file WITHOUT losing the ground truth
+// ------------------------------------------------------------------------------------------
+
+/// misspelled stand-ins for a prose word: no dictionary word, longer than any `ident()`
+pub const SENTINELS: &[&str] = &["zzsentinelx", "qqmarkerword"];
+
+/// zones are in increasing order and disjoint (true by construction; checked before any rewrite)
+pub fn zones_ordered(zones: &[Zone], n: usize) -> bool {
+    zones.windows(2).all(|w| w[0].e <= w[1].s) && zones.iter().all(|z| z.s <= z.e && z.e <= n)
+}
+
+/// Replace some Prose words by a misspelled sentinel (zone kind stays Prose, `what` becomes
+/// `sentinel`); every later zone moves by the length difference. Returns the indices of the
+/// planted zones. A front-end that lints exactly the prose must flag every sentinel at its
+/// position and nothing inside the other zones.
+pub fn plant(rng: &mut Rng, b: &mut B) -> Vec<usize> {
+    let cs: Vec<char> = b.text.chars().collect();
+    if !zones_ordered(&b.zones, cs.len()) {
+        return vec![];
+    }
+    let prose: Vec<usize> = (0..b.zones.len()).filter(|i| b.zones[*i].kind == ZK::Prose && b.zones[*i].what.starts_with("word")).collect();
+    if prose.is_empty() {
+        return vec![];
+    }
+    let forced = *rng.pick(&prose);
+    let mut out = String::new();
+    let mut n = 0usize;
+    let mut at = 0usize;
+    let mut planted = vec![];
+    for i in 0..b.zones.len() {
+        let (s, e) = (b.zones[i].s, b.zones[i].e);
+        for c in &cs[at..s] {
+            out.push(*c);
+            n += 1;
+        }
+        let a = n;
+        let chosen = b.zones[i].kind == ZK::Prose && b.zones[i].what.starts_with("word") && (i == forced || rng.chance(1, 4));
+        if chosen {
+            let w = *rng.pick(SENTINELS);
+            out.push_str(w);
+            n += w.chars().count();
+            b.zones[i].what = format!("sentinel{}", b.zones[i].what.strip_prefix("word").unwrap_or(""));
+            planted.push(i);
+        } else {
+            for c in &cs[s..e] {
+                out.push(*c);
+                n += 1;
+            }
+        }
+        b.zones[i].s = a;
+        b.zones[i].e = n;
+        at = e;
+    }
+    for c in &cs[at..] {
+        out.push(*c);
+        n += 1;
+    }
+    b.text = out;
+    b.n = n;
+    b.feat("sentinel");
+    planted
+}
+
+/// append `o` to `b` (zones shifted)
+fn append(b: &mut B, o: &B) {
+    let off = b.n;
+    b.text.push_str(&o.text);
+    b.n += o.n;
+    for z in &o.zones {
+        b.zones.push(Zone { s: z.s + off, e: z.e + off, kind: z.kind, what: z.what.clone() });
+    }
+    for f in &o.feats {
+        b.feat(*f);
+    }
+    for t in &o.taints {
+        b.taint(*t);
+    }
+}
+
+/// languages whose generated files can be put one after the other (no fixed prefix / suffix, no
+/// construct that is only valid once per file)
+fn concatenable(id: &str) -> bool {
+    if let Some(l) = comment_lang(id) {
+        return l.prefix.is_empty() && l.suffix.is_empty();
+    }
+    matches!(id, "markdown" | "typst" | "mail" | "plaintext" | "text" | "literate haskell" | "lhaskell")
+}
+
+/// A LONG file: `parts` generated files of one language in a row (many occurrences of every
+/// construct in one document, large offsets). For comment languages a code line separates the
+/// parts, so that the last comment of one part and the first of the next stay two comments.
+pub fn gen_long(rng: &mut Rng, id: &str, ilt: bool, markers: &[String], parts: usize) -> Option<B> {
+    if !concatenable(id) {
+        return None;
+    }
+    let cl = comment_lang(id);
+    let mut acc: Option<B> = None;
+    let mut joined = 1usize;
+    let mut tries = 0;
+    while joined < parts && tries < parts * 20 {
+        tries += 1;
+        let p = gen_file(rng, id, ilt, markers)?;
+        if !p.text.ends_with('\n') {
+            continue;
+        }
+        let Some(b) = acc.as_mut() else {
+            acc = Some(p);
+            continue;
+        };
+        // a shebang / a metadata block is only one at the start of a file; one line-ending
+        // convention per file
+        if p.eol != b.eol || p.feats.contains(&"shebang") || p.feats.contains(&"metadata-block") {
+            continue;
+        }
+        let mut sep = B::new(b.eol == "\r\n");
+        if let Some(l) = &cl {
+            code_line(&mut sep, rng, l, "");
+        }
+        sep.nl();
+        append(b, &sep);
+        append(b, &p);
+        b.feat("long");
+        joined += 1;
+    }
+    acc
+}
+
+/// the file without its final line terminator(s) (nothing judged lies there)
+pub fn strip_final_eol(b: &mut B) -> bool {
+    let last = b.zones.iter().map(|z| z.e).max().unwrap_or(0);
+    let mut cs: Vec<char> = b.text.chars().collect();
+    let mut cut = false;
+    while cs.len() > last && matches!(cs.last(), Some('\n') | Some('\r')) {
+        cs.pop();
+        cut = true;
+    }
+    if cut {
+        b.text = cs.iter().collect();
+        b.n = cs.len();
+        b.feat("no-final-eol");
+    }
+    cut
+}
+
+/// blank lines in front of the file (not for files whose first line must be the first line)
+pub fn prepend_blank_lines(rng: &mut Rng, id: &str, b: &mut B) -> bool {
+    if b.feats.contains(&"shebang") || b.feats.contains(&"metadata-block") || id == "php" {
+        return false;
+    }
+    let k = rng.range(1, 3);
+    let lead: String = b.eol.repeat(k);
+    let off = lead.chars().count();
+    b.text = format!("{}{}", lead, b.text);
+    b.n += off;
+    for z in &mut b.zones {
+        z.s += off;
+        z.e += off;
+    }
+    b.feat("leading-blank-lines");
+    true
+}
+
+/// lone CR as the line terminator (a line ending of CommonMark and of Typst; plain text has no
+/// lines): the LF file with every `\n` replaced — same length, same zones
+pub fn lone_cr(id: &str, b: &mut B) -> bool {
+    if !matches!(id, "markdown" | "typst" | "mail" | "plaintext" | "text") || b.eol != "\n" {
+        return false;
+    }
+    b.text = b.text.replace('\n', "\r");
+    b.eol = "\r";
+    b.feat("eol-lone-cr");
+    true
+}
+
+/// documents without any prose: nothing may be offered, nothing may panic
+pub const EDGE_DOCS: &[&str] = &["", " ", "\n", "\r\n", "\r", "\t", " \n \n", "\n\n\n", "\u{feff}", "\u{feff}\n", "\u{a0}\u{2003}\n", "\u{200b}", "😀", "é\n"];
